@@ -211,6 +211,9 @@ func runShard(spec *Spec, exe, tier string, seed int64, shard, n int, work strin
 	cmd.Env = append(os.Environ(), "GOTRACEBACK=all")
 	if spec.Race {
 		cmd.Env = append(cmd.Env, fmt.Sprintf("GORACE=halt_on_error=0 history_size=3 log_path=%s/race-%d", work, shard))
+		if g := shardProcs(tier, shard); g != "" {
+			cmd.Env = append(cmd.Env, "GOMAXPROCS="+g)
+		}
 	}
 	cmd.SysProcAttr = &syscall.SysProcAttr{Setpgid: true}
 	if err := cmd.Start(); err != nil {
@@ -575,6 +578,9 @@ func writeEvidence(verifDir string, m *Merged, wall float64, violations int, lis
 			rr[k] = v
 		}
 		cov["race_detector"] = map[string]interface{}{"enabled": true, "reports_by_signature": rr, "judged_files": m.Spec.RaceFiles}
+		if m.Tier == "thorough" && os.Getenv("GOMAXPROCS") == "" {
+			cov["scheduler_widths"] = "shards run with GOMAXPROCS = default, default, 2, 1 in rotation"
+		}
 	}
 	if len(listed) > 0 {
 		cov["known_findings_observed"] = listed
@@ -595,6 +601,16 @@ func writeEvidence(verifDir string, m *Merged, wall float64, violations int, lis
 	os.MkdirAll(filepath.Join(verifDir, "evidence"), 0755)
 	b, _ := json.MarshalIndent(ev, "", " ")
 	os.WriteFile(filepath.Join(verifDir, "evidence", m.Spec.ID+".json"), append(b, '\n'), 0644)
+}
+
+// shardProcs: in the thorough tier the concurrent checks run their shards under different
+// scheduler widths (default, default, 2, 1 in rotation) to vary the interleavings the Go
+// scheduler produces; an explicit GOMAXPROCS in the environment wins.
+func shardProcs(tier string, shard int) string {
+	if tier != "thorough" || os.Getenv("GOMAXPROCS") != "" {
+		return ""
+	}
+	return []string{"", "", "2", "1"}[shard%4]
 }
 
 func sorted(s []string) []string {
